@@ -77,6 +77,7 @@ type c08Plan struct {
 	Seed      [32]byte
 	SideSat   int64
 	Pays      []c08PayPlan
+	Burst     bool
 	Restarts  int
 	RestartAt []int
 	Cuts      []*c08CutPlan
@@ -84,8 +85,8 @@ type c08Plan struct {
 
 func (p *c08Plan) String() string {
 	var b strings.Builder
-	fmt.Fprintf(&b, "side=%dsat restarts=%d at=%v\n", p.SideSat, p.Restarts,
-		p.RestartAt)
+	fmt.Fprintf(&b, "side=%dsat restarts=%d at=%v burst=%v\n", p.SideSat,
+		p.Restarts, p.RestartAt, p.Burst)
 	for i, x := range p.Pays {
 		fmt.Fprintf(&b, "  pay%d dir=%d %s amt=%d kind=%s feeDelta=%d "+
 			"cltvDefect=%d launch=(%d,%d) resolve=(%d,%d) early=%v\n",
@@ -155,12 +156,23 @@ func c08DrawPlan(t *rapid.T) *c08Plan {
 	}).Draw(t, "sideSat")
 	side := lnwire.NewMSatFromSatoshis(btcutil.Amount(p.SideSat))
 
+	// A quarter of the cases follow a template that makes partially
+	// answered forwarding packages meet restarts: a burst of adds in one
+	// commitment, one of them refused by the forwarder, one held by the
+	// receiver, two restarts.
+	burst := rapid.IntRange(0, 3).Draw(t, "burst") == 0
+	burstDir := rapid.IntRange(0, 1).Draw(t, "burstDir")
+
 	p.Restarts = rapid.SampledFrom([]int{0, 1, 1, 1, 1, 1, 1, 2, 2, 2}).Draw(
 		t, "restarts",
 	)
+	if burst {
+		p.Restarts = 2
+		p.Burst = true
+	}
 	for i := 0; i < p.Restarts; i++ {
 		p.RestartAt = append(p.RestartAt, rapid.SampledFrom([]int{
-			3, 5, 7, 9, 11, 13, 15, 18, 21, 24, 28, 32, 40, 60,
+			2, 3, 4, 5, 6, 7, 8, 10, 12, 14, 16, 18, 22, 28, 40,
 		}).Draw(t, "restartAt"))
 	}
 
@@ -169,6 +181,9 @@ func c08DrawPlan(t *rapid.T) *c08Plan {
 	}).Draw(
 		t, "nPay",
 	)
+	if burst && nPay < 3 {
+		nPay = 3
+	}
 	for i := 0; i < nPay; i++ {
 		var x c08PayPlan
 		l := fmt.Sprintf("p%d.", i)
@@ -196,7 +211,7 @@ func c08DrawPlan(t *rapid.T) *c08Plan {
 			}
 		}
 		x.At = rapid.SampledFrom([]int{
-			0, 0, 0, 0, 1, 2, 3, 4, 6, 9, 14, 25,
+			0, 0, 0, 0, 0, 0, 1, 2, 3, 5, 8, 14,
 		}).Draw(t, l+"at")
 		x.ResPhase = x.Phase + rapid.IntRange(0, 2).Draw(t, l+"resPhase")
 		if x.ResPhase > p.Restarts {
@@ -206,6 +221,26 @@ func c08DrawPlan(t *rapid.T) *c08Plan {
 			0, 5, 10, 20, 40,
 		}).Draw(t, l+"resAt")
 		x.CancelEarly = rapid.IntRange(0, 4).Draw(t, l+"early") == 0
+		if burst && i < 3 {
+			x.Dir, x.Phase, x.At = burstDir, 0, 0
+			if x.Class == "tiny" || x.Class == "over" {
+				x.Class, x.Amt = "mid", lnwire.MilliSatoshi(6_000_000+i)
+			}
+			switch i {
+			case 0:
+				if x.FeeDelta >= 0 && x.CltvDefect == 0 {
+					x.CltvDefect = 1
+				}
+			case 1:
+				if x.Kind != c08KindHoldCancel {
+					x.Kind = c08KindHoldSettle
+				}
+				if x.FeeDelta < 0 {
+					x.FeeDelta = 0
+				}
+				x.CltvDefect = 0
+			}
+		}
 		p.Pays = append(p.Pays, x)
 	}
 
@@ -456,7 +491,10 @@ func (r *c08Run) resolve(p *c08Pay, outcome int, pre lntypes.Preimage,
 	p.mu.Unlock()
 }
 
-// await subscribes to the attempt result at the sender's current switch.
+// await subscribes to the attempt result at the sender's current switch
+// (synchronously: Switch.GetAttemptResult must not run concurrently with
+// Switch.Stop, which only the harness' main goroutine calls) and collects the
+// result on a goroutine.
 func (r *c08Run) await(p *c08Pay, sw *Switch) {
 	ch, err := sw.GetAttemptResult(p.pid, p.hash, newMockDeobfuscator())
 	switch {
@@ -467,15 +505,22 @@ func (r *c08Run) await(p *c08Pay, sw *Switch) {
 		// switch shutting down: ask again after the restart.
 		return
 	}
-	res, ok := <-ch
-	if !ok {
-		return
-	}
-	if res.Error != nil {
-		r.resolve(p, c08Failed, lntypes.Preimage{}, res.Error.Error())
-		return
-	}
-	r.resolve(p, c08Success, res.Preimage, "")
+
+	r.wg.Add(1)
+	go func() {
+		defer r.wg.Done()
+
+		res, ok := <-ch
+		if !ok {
+			return
+		}
+		if res.Error != nil {
+			r.resolve(p, c08Failed, lntypes.Preimage{},
+				res.Error.Error())
+			return
+		}
+		r.resolve(p, c08Success, res.Preimage, "")
+	}()
 }
 
 func (r *c08Run) launch(p *c08Pay) error {
@@ -543,12 +588,7 @@ func (r *c08Run) launch(p *c08Pay) error {
 	p.mu.Lock()
 	p.sent = true
 	p.mu.Unlock()
-
-	r.wg.Add(1)
-	go func() {
-		defer r.wg.Done()
-		r.await(p, sw)
-	}()
+	r.await(p, sw)
 
 	return nil
 }
@@ -609,12 +649,7 @@ func (r *c08Run) requery() {
 			r.resolve(p, c08Lost, lntypes.Preimage{}, "lost")
 			continue
 		}
-		p := p
-		r.wg.Add(1)
-		go func() {
-			defer r.wg.Done()
-			r.await(p, sw)
-		}()
+		r.await(p, sw)
 	}
 }
 
@@ -1623,6 +1658,9 @@ func c08RunCase(t *testing.T, plan *c08Plan) *c08Result {
 	}
 	if overlap {
 		lab = append(lab, "overlap")
+	}
+	if plan.Burst {
+		lab = append(lab, "burst_template")
 	}
 	if r.shiftExposed {
 		lab = append(lab, "fwdpkg_partially_acked_at_restart")
